@@ -197,6 +197,7 @@ type c30case struct {
 	incon  bool
 	// statistics for the non-triviality rule
 	added, faults, removed int
+	unexpected             int
 	tags                   map[string]bool
 }
 
@@ -230,7 +231,15 @@ func (c *c30case) await(match func(*c30evt) bool) *c30evt {
 			if match(g) {
 				return g
 			}
-			c.env.pend = append(c.env.pend, g)
+			if g.done != "" || g.call == "Exec" {
+				// a finished thread, or a worker that dequeued: consumed later
+				c.env.pend = append(c.env.pend, g)
+				continue
+			}
+			// every other thread is parked, so this store call is one the model does not expect
+			// here: let it happen (the observations will show its effect) and keep waiting
+			c.unexpected++
+			g.resume <- c30reply{}
 		case <-timer.C:
 			c.incon = true
 			return nil
@@ -1018,7 +1027,11 @@ func (c *c30case) finish(kind string) verifhlib.Case {
 	os.RemoveAll(c.dir)
 	coq := fmt.Sprintf("mkcase (mkcfg %d %d %d %d %d) %s %s", c.cfg.inbuf, c.cfg.rebuf, c.cfg.inw, c.cfg.rew, c.cfg.ri,
 		verifhlib.List(c.ops), verifhlib.List(c.outs))
-	return verifhlib.Case{Coq: coq, NT: c.added >= 2 && c.faults >= 1 && c.removed >= 1, Kind: kind, Hist: c.hist,
+	var tags []string
+	if c.unexpected > 0 {
+		tags = append(tags, "unexpected-store-call")
+	}
+	return verifhlib.Case{Coq: coq, NT: c.added >= 2 && c.faults >= 1 && c.removed >= 1, Kind: kind, Hist: c.hist, Tags: tags,
 		Sample: map[string]interface{}{"cfg": fmt.Sprintf("%+v", c.cfg), "ops": c.ops, "obs": c.outs}, Incon: c.incon}
 }
 
@@ -1160,6 +1173,14 @@ func c30seeds() (out []struct {
 	// Add racing with Close: passed the closed check, stores and enqueues into a closed manager
 	add("seed-add-races-close", small,
 		c30act{k: "start"}, c30act{k: "add", x: 0}, c30act{k: "shutdown"}, c30act{k: "addstep", x: 0}, c30act{k: "addstep", x: 0}, c30act{k: "crash"}, c30act{k: "start"})
+	// the witness of C30_liveness_under_thread_fairness_refuted: tasks 0 and 1 keep failing and are
+	// ahead of task 2 in every poll; the retry queue (capacity 1) is full whenever 2's turn comes
+	starve := []c30act{{k: "start"}, {k: "addfull", x: 0, y: 1}, {k: "addfull", x: 1, y: 1}, {k: "addfull", x: 2, y: 1}}
+	for i := 0; i < 3; i++ {
+		starve = append(starve, c30act{k: "tick", x: 1}, c30act{k: "pollfull"},
+			c30act{k: "ret", x: 0, ok: false}, c30act{k: "fin", x: 0}, c30act{k: "ret", x: 1, ok: false}, c30act{k: "fin", x: 1})
+	}
+	add("seed-starvation-witness", c30cfg{1, 1, 1, 1, 0}, starve...)
 	return out
 }
 
@@ -1214,7 +1235,7 @@ func c30driver(ctx *verifhlib.Ctx) {
 	res := make([]verifhlib.Case, len(jobs))
 	var wg sync.WaitGroup
 	ch := make(chan job)
-	for w := 0; w < 8; w++ {
+	for w := 0; w < 12; w++ {
 		wg.Add(1)
 		go func() {
 			defer wg.Done()
@@ -1228,7 +1249,16 @@ func c30driver(ctx *verifhlib.Ctx) {
 	}
 	close(ch)
 	wg.Wait()
+	incon := 0
 	for _, cs := range res {
 		ctx.Emit(cs)
+		if cs.Incon {
+			incon++
+		}
+	}
+	if incon > 3 && incon*10 > len(res) {
+		// a verdict must not rest on a run in which the implementation mostly failed to reach the
+		// points the controller waits for
+		panic(fmt.Sprintf("C30 driver: %d of %d cases inconclusive (a step the controller waited for never happened)", incon, len(res)))
 	}
 }
